@@ -20,5 +20,8 @@ theorem body_standardRenderer_kill : Tea.Gen.fact_body_standardRenderer_kill = T
 theorem body_standardRenderer_clearScreen : Tea.Gen.fact_body_standardRenderer_clearScreen = Tea.Doc.fact_body_standardRenderer_clearScreen := rfl
 theorem body_standardRenderer_enterAltScreen : Tea.Gen.fact_body_standardRenderer_enterAltScreen = Tea.Doc.fact_body_standardRenderer_enterAltScreen := rfl
 theorem body_standardRenderer_exitAltScreen : Tea.Gen.fact_body_standardRenderer_exitAltScreen = Tea.Doc.fact_body_standardRenderer_exitAltScreen := rfl
+theorem body_Println : Tea.Gen.fact_body_Println = Tea.Doc.fact_body_Println := rfl
+theorem body_Printf : Tea.Gen.fact_body_Printf = Tea.Doc.fact_body_Printf := rfl
+theorem body_standardRenderer_execute : Tea.Gen.fact_body_standardRenderer_execute = Tea.Doc.fact_body_standardRenderer_execute := rfl
 
 end Tea.Props.Bridge.C14
